@@ -7,7 +7,8 @@ EXTENDS TLC, FiniteSets
 
 CONSTANTS Kinds,   \* abstract kinds of baseline data: "ok", "dq", "poor", "dq_poor"
           DTypes,  \* what is passed to predict: "own_reporting", "own_baseline", "foreign", "frame"
-          TZs      \* "same", "other"
+          TZs      \* "same", "other" (different UTC offset), "other_same_offset" (another zone that shares the
+                   \* baseline zone's UTC offset throughout the reporting data)
 
 VARIABLES fitted, kind, mdq, stored, last
 
@@ -40,7 +41,7 @@ Fit(k, ign) ==
 Predict(d, tz, ign) ==
     /\ UNCHANGED <<fitted, kind, mdq, stored>>
     /\ last' = Rec("predict", d, tz, ign,
-                   IF ~fitted \/ d \in {"foreign", "frame"} \/ tz = "other"
+                   IF ~fitted \/ d \in {"foreign", "frame"} \/ tz # "same"
                      THEN "SomeException"
                      ELSE IF mdq # {} /\ ~ign THEN "DisqualifiedModelError" ELSE "frame")
 
